@@ -641,3 +641,78 @@ def ast_conditions(node):
                 res.append((a.cond, False))
         child = a
     return res
+
+
+# ------------------------------------------------------------------------------------------------
+# common leaf recognisers (idiom tables): membership tests and null tests
+# ------------------------------------------------------------------------------------------------
+def membership(leaf):
+    """(container node, key node, positive) if leaf tests whether key is in an associative container:
+    c.find(k) != c.end() | c.find(k) == c.end() | c.count(k) [==,!=,>,<,>=] 0/1 | c.count(k) (as bool) | c.contains(k)"""
+    s = leaf.strip_all()
+    if s.k == 'CXXOperatorCallExpr' and s.op in ('==', '!=') and len(s.c) == 3:
+        a, b = s.c[1].strip_all(), s.c[2].strip_all()
+        for x, y in ((a, b), (b, a)):
+            if x.k == 'CXXMemberCallExpr' and x.callee and x.callee['name'] == 'find' and x.args() and \
+                    y.k == 'CXXMemberCallExpr' and y.callee and y.callee['name'] in ('end', 'cend') and \
+                    key(x.object_arg()) == key(y.object_arg()):
+                return (x.object_arg(), x.args()[0], s.op == '!=')
+    if s.k == 'CXXMemberCallExpr' and s.callee and s.callee['name'] in ('count', 'contains') and s.args() and s.object_arg() is not None:
+        return (s.object_arg(), s.args()[0], True)
+    if s.k == 'BinaryOperator' and s.op in ('==', '!=', '>', '<', '>=', '<=') and len(s.c) == 2:
+        a, b = s.c[0].strip_all(), s.c[1].strip_all()
+        for x, y, flip in ((a, b, False), (b, a, True)):
+            if x.k == 'CXXMemberCallExpr' and x.callee and x.callee['name'] == 'count' and x.args() and y.cv in (0, 1):
+                op = s.op
+                if flip:
+                    op = {'>': '<', '<': '>', '>=': '<=', '<=': '>=', '==': '==', '!=': '!='}[op]
+                # count is 0 or 1 for sets/maps
+                truth = {('==', 0): False, ('!=', 0): True, ('>', 0): True, ('<=', 0): False, ('>=', 1): True, ('<', 1): False,
+                         ('==', 1): True, ('!=', 1): False}.get((op, y.cv))
+                if truth is None:
+                    return None
+                return (x.object_arg(), x.args()[0], truth)
+    return None
+
+
+def null_test(leaf):
+    """(pointer expression node, is_null) if leaf tests a (smart) pointer against null: p == nullptr | p != nullptr | p (as bool) |
+    p.get() == nullptr.  `!p` is handled by formula() through the negation of `p`."""
+    s = leaf.strip_all()
+
+    def is_null_const(n):
+        n = n.strip_all()
+        if n.k in ('CXXNullPtrLiteralExpr', 'GNUNullExpr'):
+            return True
+        if n.k in CTOR_KINDS and len(n.c) == 1 and n.c[0].strip_all().k in ('CXXNullPtrLiteralExpr', 'GNUNullExpr'):
+            return True
+        return n.cv == 0 and (n.type or {}).get('ptr', False)
+
+    def unget(n):
+        n = n.strip_all()
+        if n.k == 'CXXMemberCallExpr' and n.callee and n.callee['name'] == 'get' and not n.args():
+            return n.object_arg()
+        return n
+    if s.k in ('CXXOperatorCallExpr', 'BinaryOperator') and s.op in ('==', '!='):
+        ops = s.c[1:] if s.k == 'CXXOperatorCallExpr' else s.c
+        if len(ops) == 2:
+            for x, y in ((ops[0], ops[1]), (ops[1], ops[0])):
+                if is_null_const(y) and not is_null_const(x):
+                    return (unget(x), s.op == '==')
+    if s.k == 'CXXMemberCallExpr' and s.callee and s.callee['name'] == 'operator bool':
+        return (s.object_arg(), False)
+    t = s.type or {}
+    if s.k in ('DeclRefExpr', 'MemberExpr') and t.get('ptr'):
+        return (s, False)
+    return None
+
+
+def opaque_nodes(fn, f):
+    """AST nodes behind the opaque atoms of a formula"""
+    res = []
+    for a in f_atoms(f):
+        if isinstance(a, tuple) and a and a[0] == 'opaque':
+            n = fn.nodes.get(a[1])
+            if n is not None:
+                res.append(n)
+    return res
